@@ -50,7 +50,8 @@ func singleQuoted(lit string) string {
 }
 
 var c11Numbers = []string{"0", "-0", "1", "-1", "10", "1.5", "-2.25", "0.1", "1E+2", "1e-2", "1E2", "1e0", "12345678901234567", "9007199254740993", "123456789012345678901234567890",
-	"5e-324", "2.2250738585072014e-308", "1.7976931348623157e308", "1e308", "0.30000000000000004", "4.35", "1e21", "1e-7", "100", "0.000001", "-1.5e-10", "3.141592653589793", "1e-400", "0e0", "-0.0", "1e05", "1.5E+07", "-2e-03", "0e00", "6.02e023", "1E+00"}
+	"5e-324", "2.2250738585072014e-308", "1.7976931348623157e308", "1e308", "0.30000000000000004", "4.35", "1e21", "1e-7", "100", "0.000001", "-1.5e-10", "3.141592653589793", "1e-400", "0e0", "-0.0", "1e05", "1.5E+07", "-2e-03", "0e00", "6.02e023", "1E+00",
+	"18446744073709551615", "18446744073709551616", "20000000000000000000", "99999999999999999999", "-18446744073709551616", "9223372036854775807", "9223372036854775808", "4294967296", "340282366920938463463374607431768211456"}
 
 var c11Escapes = []string{`\"`, `\\`, `\/`, `\b`, `\f`, `\n`, `\r`, `\t`, "\\u0041", "\\u00e9", "\\u20ac", "\\ud83d\\ude00", "\\uD83D\\uDE00", `\u0000`, `\u001f`, "\\uffff", `\u007f`, "\\u00E9"}
 var c11Raw = []string{"a", "Z", " ", "é", "€", "😀", "'", "$", "/", "{", "}", "[", "]", "(", ")", ":", ",", ".", "*", "?", "&", "|", "~", "`", "%", "^", ";", "=", "<", ">", "!", "+", "-", "0"}
@@ -94,7 +95,7 @@ func (g *c11Gen) num() string {
 		sb.WriteByte('0')
 	} else {
 		sb.WriteByte(byte('1' + r.Intn(9)))
-		for k := r.Intn(18); k > 0; k-- {
+		for k := r.Intn(26); k > 0; k-- {
 			sb.WriteByte(byte('0' + r.Intn(10)))
 		}
 	}
